@@ -13,6 +13,7 @@
   nts.newreq [pool] c2s rand=R                         -> ok uid= cookies= ph=
   nts.newresp [cookies] key uid                        -> ok uid= pt=
   srv.reply B hdr keys=[id:key,…] cur=id:key rand=R open=… seal=… -> ok B
+  lsn.send B keys=[id:key] cur=id:key open=…           -> ok len=N | none   (real IP listener on loopback)
   cl.init [pool] c2s s2c | cl.request hdr rand=R seal=… | cl.response B open=… | cl.level
 -/
 import Driver.Common
@@ -53,12 +54,13 @@ def entries? (toks : List String) (key : String) (isOpen : Bool) : Option (List 
     parseEntry? (t.drop (key.length + 1)).toString isOpen
 
 /-- the AEAD whose answers are those the harness computed with the real library; a query that is
-    not in the table fails to open / seals to nothing (which the byte-exact comparison exposes). -/
+    not in the table fails to open / seals to zeros of the right length (which the byte-exact
+    comparison exposes). -/
 def tableAEAD (seals opens : List Entry) : AEAD where
   sealF k n p ad :=
     match seals.find? (fun e => e.k = k ∧ e.n = n ∧ e.x = p ∧ e.ad = ad) with
     | some e => e.r.getD []
-    | none => []
+    | none => zeros (p.length + 16)
   openF k n c ad :=
     match opens.find? (fun e => e.k = k ∧ e.n = n ∧ e.x = c ∧ e.ad = ad) with
     | some e => e.r
@@ -159,6 +161,16 @@ def stepPure (toks : List String) : Option String :=
       let cur ← (kv? toks "cur") >>= parseIdKey?
       let lookup := fun (i : Nat) => (keys.find? (·.1 = i)).map (·.2)
       some (showRes toHex (serverReply A lookup cur.1 cur.2 b hdr rnd))
+    | ["lsn.send", b] => do
+      let b ← parseHex? b
+      let keys ← (kv? toks "keys") >>= parseKeys?
+      let cur ← (kv? toks "cur") >>= parseIdKey?
+      let lookup := fun (i : Nat) => (keys.find? (·.1 = i)).map (·.2)
+      match serverReply A lookup cur.1 cur.2 b (zeros 48) [] with
+      | .ok r => some s!"ok len={r.length}"
+      | .err _ => some "none"
+      | .panic p => some ("panic " ++ p.name)
+      | .hang => some "hang"
     | _ => none
   | _, _ => none
 
